@@ -301,6 +301,8 @@ def long_bank_specs(rng, nrandom):
         for _ in range(rng.randrange(20, 70)):
             b = rng.choice((0xED, 0xED, 0, 1, 0xFF, 0xEC, 0xEE, rng.randrange(256)))
             n = rng.choice((1, 1, 1, 2, 2, 3, 4, 5, 6, 7, rng.randrange(1, 40), 254, 255, 256, 257, 510, 511, 765, 766))
+            if sum(m for _, m in runs) + n > BANK - 8:
+                break
             runs.append([b, n])
         runs = norm_runs(runs)
         specs.append(('D:rnd%d' % j, fill(runs, BANK, rng.randrange(256))))
